@@ -8,6 +8,10 @@ what is stored where, under which facts, with what the property requires.  No ru
   c16_mask.py  NaN-aware selector masks decided by truth table over the feasible worlds of one element pair (a<b, a==b, a>b, a NaN, b NaN,
                both NaN): De Morgan forms, flipped comparisons, np.where, `x != x`, operator.gt passed as a value, helper functions and
                selectors inlined into their caller are the nan_argmax / nan_argmin call they equal
+  c16_rows.py  maxmin decided row by row in the worlds "a row of numbers" / "a row with NaN samples and valid samples": element-wise predicates,
+               row masks (`.all/.any(axis=1)`, NaN counts, isnan of the NaN-aware row extreme), np.where / masked stores into private copies and
+               result tables replayed in program order, whole-matrix tests made on the path; every such row must get its own NaN-aware
+               extremes and their abscissae, so a mask that is true for a row with a valid sample (`~isfinite(R).all(axis=1)`) is a violation
   c16_uf.py    R4 effects of _pre_calcs / apply_uf / frf_apply_uf and cache discipline, R5 documented factors, R6 exits and index spaces
 """
 from __future__ import annotations
@@ -27,7 +31,8 @@ LEVEL = "other"
 EXPLANATION = ("Static, on values: every path of cla.extrema (both arms, first and later cases, with and without abscissae and case numbers) keeps "
                "max-side and min-side bookkeeping in their columns, selects the rows of a role from that role's data only, moves value, label and "
                "abscissa together, and stores fresh copies on the first case (no aliasing of the contributor's tables or of the two label lists); "
-               "nan_argmax/min, nan_absmax and maxmin compute what is documented and are mirror images; the SRS envelope is first-or-running-maximum "
+               "nan_argmax/min, nan_absmax and maxmin compute what is documented and are mirror images (maxmin per kind of row: a row that has a valid "
+               "sample gets its own NaN-aware extremes whatever masks, copies and np.where selections the code uses); the SRS envelope is first-or-running-maximum "
                "and independent of the slot index; apply_uf / _pre_calcs / frf_apply_uf write only into storage they allocated (views vs copies "
                "modelled, overwrite_*/out= keywords included), the cache is factor-independent and filled exactly when empty, every part is scaled by "
                "the documented factor (exact symbolic check, diagonal and full matrices, with and without rf modes), d = d_static + d_dynamic on "
@@ -36,7 +41,8 @@ EXPLANATION = ("Static, on values: every path of cla.extrema (both arms, first a
 MANIFEST = {
     "text": "Partial claim decided statically on values and effects: (R1) role discipline and role information-flow in cla.extrema on every path, "
             "per-case records, first-case values are fresh copies (ext, ext_x, maxcase, mincase alike), _store_maxmin, frf_data_recovery; "
-            "(R2) nan_argmax/min, nan_absmax, maxmin (NaN-aware position, value read at the reported position) and the two selectors are mirror "
+            "(R2) nan_argmax/min, nan_absmax, maxmin (NaN-aware position, value read at the reported position, decided for rows of numbers and "
+            "rows with NaN samples: no row with a valid sample is replaced or overwritten under a row mask) and the two selectors are mirror "
             "images; (R3) the SRS envelope is first-or-fmax, independent of the slot index, and `first` is read before extrema(); (R4) _pre_calcs / "
             "apply_uf / frf_apply_uf mutate nothing they did not allocate (in-place stores, augmented assignments, overwrite_* / out= on library "
             "calls; basic indexing = view, advanced = copy), the cache is factor-independent, written only when empty, avterm is a snapshot; "
@@ -44,7 +50,8 @@ MANIFEST = {
             "without rf modes; (R6) every exit returns d = d_static + d_dynamic and _pre_calcs/apply_uf use the full, non-rb, elastic and rf index "
             "spaces consistently. Not decided: NaN semantics of numpy comparisons, report formatting, form_extreme/merge label handling.",
     "note": "Trusted: CPython ast; verifier/c16_interp.py (path enumeration, heap/alias model, table of numpy view/copy semantics), "
-            "verifier/e2_formula.py (matrix products abstracted to scalar products), the space rules in verifier/c16_uf.py (Spaces).",
+            "verifier/e2_formula.py (matrix products abstracted to scalar products), the space rules in verifier/c16_uf.py (Spaces), the row "
+            "worlds of verifier/c16_rows.py (infinities not modelled: isfinite is read as ~isnan).",
     "technique": "abstract interpretation on symbolic values with path enumeration and an alias/effect model + exact symbolic factor check + "
                  "index-space type inference",
 }
